@@ -74,7 +74,7 @@ def generate(run_seed, tier):
     c.shuffle(contribs)
     mcfg = R.gen_model_cfg(c, family='transmission', contribs=contribs,
                            nmol=c.choice([2, 2, 3]))
-    mcfg['nlayers'] = c.randint(3, 8)
+    mcfg['nlayers'] = c.randint(2, 8)
     mcfg['opac']['ngrid'] = c.randint(8, 24)
     mcfg['opac']['logmag'] = c.choice([[-24, -20], [-26, -22], [-22, -17]])
     for m in mcfg['molecules']:
